@@ -85,7 +85,7 @@ CLAIMED = {
   ref='6/C03', technique='Lean 4 proof (conservation/counting invariant over attempt histories, store refinement) + differential correspondence vs real Queue on 4 backends',
   note='Partial: the interleaving theorem is about the scheduler model of C12 (bounded pools included) under the Calm assumption.'),
  'C01': dict(
-  text='PARTIAL (calm environment of C12; storage calls atomic inside a section; bounded pools: the safety statements hold, the stall is a known finding; liveness is stated as: never without a next step). The ledger and the scheduler are ONE transition system now (Model/QueueM.lean: the scheduler state of Model/Sched.lean + what the storage holds for every message + every attempt\'s envelope + the verdict of _attempt + bounces + a ghost ledger; a step of it IS a step of the scheduler model, its two-phase attempt IS Attempt.attempt: step_sched, phases_eq_attempt). Over it, for every interleaving of enqueues, announcements, ticks, scheduler turns, _dequeue tasks, relay answers of any shape, backoff answers, re-queues, removals and flushes: one_disposition (every accepted recipient is counted exactly once in delivered / failed for good / outstanding, in every reachable state), accepted_never_lost (delivered, or failed and named in a bounce quoting its reply when a bounce is produced, or outstanding in a message that is still stored and handed off / in flight / finishing / dequeuing / in the timetable with the loop due to wake by its time), removed_means_final. The sequential theorems over Model/Attempt.lean remain: for every attempt outcome and every history each accepted recipient '
+  text='PARTIAL (calm environment of C12; storage calls atomic inside a section; bounded pools: the safety statements hold, the stall is a known finding; liveness is stated as: never without a next step). The ledger and the scheduler are ONE transition system now (Model/QueueM.lean: the scheduler state of Model/Sched.lean + what the storage holds for every message + every attempt\'s envelope + the verdict of _attempt + bounces + a ghost ledger; a step of it IS a step of the scheduler model, its two-phase attempt IS Attempt.attempt: step_sched, phases_eq_attempt). Over it, for every interleaving of enqueues, announcements, ticks, scheduler turns, _dequeue tasks, relay answers of any shape, backoff answers, re-queues, removals and flushes: one_disposition (every accepted recipient is counted exactly once in delivered / failed for good / outstanding, in every reachable state), accepted_never_lost (delivered, or failed and named in a bounce quoting its reply when a bounce is produced, or outstanding in a message that is still stored and handed off / in flight / finishing / dequeuing / in the timetable with the loop due to wake by its time), removed_means_final. The relay contract assumed there is met by the relay models (relay_contract_met, with C11\'s attempt_answers_everyone and sequence_complete). The sequential theorems over Model/Attempt.lean remain: for every attempt outcome and every history each accepted recipient '
        'is exactly one of delivered / failed for good / still stored; the message is removed only when nobody is outstanding; when the backoff '
        'returns None everybody outstanding is failed; failed recipients of a non-null-sender message are named in a bounce (with C13). The real Queue '
        'is driven through seeded histories mixing None/Reply, mapping, sequence, Transient, Permanent and unexpected exceptions on dict, disk, redis and '
@@ -112,7 +112,7 @@ CLAIMED = {
        'an accepted sender, DATA only with sender and recipient, EHLO/HELO only after the greeting) followed by its reply; a 221/421 reply always '
        'closes with CLOSE last; sender/recipients are forgotten after accepted RSET, EHLO/HELO, every message and a TLS handshake; no command but '
        'MAIL/RCPT can raise the sender/recipient flag. Tied to the code by running the real Server with a recording handler over all sequences of '
-       'depth 2 (quick) / 3 (thorough) after 8 state-reaching prefixes over a 38-line command alphabet x verdicts x 4 extension configurations.',
+       'depth 2 (quick) / 3 (thorough) after 8 state-reaching prefixes over a 38-line command alphabet x verdicts x 4 extension configurations. SmtpSession\'s own copy of the transaction (session mode of the model: RSET / NOOP / QUIT never see a verdict): EnvInv — while the server holds an accepted sender the session holds an envelope, while it holds an accepted recipient the envelope has one — through every command, message, handshake, AUTH exchange, the whole loop and a whole session (envInv_step / envInv_loop / envInv_serve), so the asserts of SmtpSession.RCPT / HAVE_DATA never fire and no envelope reaches the queue without a recipient (rcpt_callback_has_envelope, data_accepted_has_envelope); tied by running the real-SmtpEdge sessions of the campaign through the model with the verdicts the validators really gave (reply codes and the final SmtpSession.envelope compared).',
   ref='6/C07', technique='Lean 4 proof (case analysis of the command step function, shape predicate) + differential correspondence vs real smtp.Server'),
  'C09': dict(
   text='Lean theorems over Model/Server.lean + Model/Data.lean: for every validator behaviour, AUTH oracle and server state, two connections that '
@@ -153,7 +153,7 @@ CLAIMED = {
        'record n mod k so the first attempt uses a best-priority host and every host gets its turn, neither MX nor A records / an empty answer / a '
        'recipient without a domain is a permanent failure, a resolver error (also on the A fallback) a transient one. Tied to the code by running the real SmtpRelayClient/LmtpRelayClient/StaticSmtpRelay/MxSmtpRelay against a scripted peer on a socketpair '
        '(stage x outcome x pipelining x TLS x AUTH x 1..3 recipients), PipeRelay/MaildropRelay/DovecotLdaRelay against stub programs, HttpRelay '
-       'against a loopback HTTP peer and MxSmtpRelay with a stub resolver over every pair of MX / A answers x attempt numbers and seeded MX lists with ties.',
+       'against a loopback HTTP peer and MxSmtpRelay with a stub resolver over every pair of MX / A answers x attempt numbers and seeded MX lists with ties. Also: every relay answers for every recipient it was handed (attempt_answers_everyone, pipe_answers_everyone, http_answers_everyone — the contract C01\'s composed theorems assume); and the result model agrees with the command model of Model/RelaySession.lean (delivered_means_content_was_sent: a recipient is reported delivered only if, on the same answers, the message data was written after MAIL / RCPT / DATA were answered and was accepted, with and without PIPELINING).',
   ref='6/C11', technique='Lean 4 proof (case analysis of the attempt function over downstream scripts, induction on the LMTP merge) + differential correspondence vs real relay clients on scripted peers',
   note='Partial: DNS caching, connection reuse and real timeouts are covered by the correspondence campaign, not by theorems.'),
  'C19': dict(
